@@ -540,6 +540,30 @@ def r17g(P, R):
         R.holds("R17-c", "read-while-filling:none", "no printer loop consults a table that the same loop is still filling from other elements (%d loops with a seen-set)" % n)
 
 
+def r17h(P, R):
+    """positions identify a node only together with their file: a hand-written equality or hash that looks at line/column of a
+    position but never at its file makes nodes of different files "the same", so whatever decides by it (duplicate detection,
+    de-duplication, memo keys, first-one-wins) depends on the order in which the files were loaded"""
+    from facts import field_reads
+    from templates import scope_fns
+    hits = []
+    for tr, m in (("core::cmp::PartialEq", "eq"), ("core::hash::Hash", "hash")):
+        for g in P.trait_impls(tr, m):
+            if g.derived or "::tests" in g.path or g.from_expansion:
+                continue
+            reads = set()
+            for h in scope_fns(P, g, depth=2):
+                reads |= {(a.split("::")[-1], fld) for a, fld in field_reads(h) if a}
+            if {("Pos", "line"), ("Pos", "column")} & reads and ("Pos", "file") not in reads:
+                hits.append((g, tr.split("::")[-1]))
+    for g, tr in hits:
+        R.violated("R17-c", "position-identity:%s:%s" % ((g.self_adt or g.self_ty or "?").split("::")[-1], tr), "%s compares/hashes the line and column of a position but never "
+                   "its file: nodes at the same line and column of different files count as identical, so the one that wins (first declaration kept, duplicate "
+                   "dropped, cached answer reused) depends on the order of the files" % g.path, loc=g.loc())
+    if not hits:
+        R.holds("R17-c", "position-identity:ok", "no hand-written equality/hash over positions ignores the file")
+
+
 def r17e(P, R):
     """a decision taken while files are merged one by one must not depend on which file comes first (the load order is the glob's
     alphabetical order, an accident of file naming).  In a loop that dispatches on the variant of each element and accumulates per
@@ -692,9 +716,18 @@ def r17d(P, R):
         if h in ALLOWED:
             continue
         bad += 1
+        # a key made from an address (`x as *const T as usize`, `ptr::addr`, `as_ptr() as usize`) identifies a memory location, not a
+        # value: once the object is gone the address is reused, and the entry stored for the old object answers for the new one
+        ints = ("usize", "u64", "u32", "isize", "i64", "u128")
+        addr = [x for x in f.walk() if (x.get("k") == "Cast" and x.get("t") in ints and str(x["e"].get("t") or "").startswith(("*const", "*mut")))
+                or (x.get("k") == "MethodCall" and x.get("method") in ("addr", "expose_addr", "expose_provenance"))]
         if missing:
             R.violated("R17-d", "state:%s" % short(h), "%s stores a value computed from %s in the thread-local/static %s and reuses it for later calls "
                        "(key: %s): output bytes depend on what the process did before, not only on the project" % (f.path, missing, h, key or "none"), loc=f.loc())
+        elif addr and key:
+            R.violated("R17-d", "state:%s" % short(h), "%s memoises in the thread-local/static %s under a key that contains an address (a pointer cast to an integer): the "
+                       "address of a dropped object is reused by a later one, for which the stale entry is then served - the output depends on what the process "
+                       "generated before, not only on the project" % (f.path, h), loc=f.loc())
         else:
             R.undecided("R17-d", "state:%s" % short(h), "%s uses global state %s; effect on output not decided" % (f.path, h), loc=f.loc())
     if not bad:
@@ -729,7 +762,7 @@ def r17pc(P, R):
             "self-check: the time/RNG detector does not see SystemTime::now in the control crate")
 
 
-RULES = [("R17-a", r17a), ("R17-b", r17b), ("R17-c", r17c), ("R17-c", r17e), ("R17-c", r17f), ("R17-c", r17g), ("R17-d", r17d), ("R17-pc", r17pc)]
+RULES = [("R17-a", r17a), ("R17-b", r17b), ("R17-c", r17c), ("R17-c", r17e), ("R17-c", r17f), ("R17-c", r17g), ("R17-c", r17h), ("R17-d", r17d), ("R17-pc", r17pc)]
 EXPLANATION = (
     "Hash-seed independence, for all inputs and all seeds: every expression in the workspace that exposes the iteration order "
     "of a std HashMap/HashSet (iter/keys/values/drain/retain/into_iter, for-loops, Debug formatting; resolved by receiver type, "
